@@ -1,6 +1,1168 @@
-From Coq Require Import ZArith QArith List Bool Lia.
+(* Lemmas about Model/Resample.v (property C08; reused by C09).
+   Style: plain Coq (ZArith/QArith, lia, field); rationals up to Qeq (==). *)
+From Coq Require Import ZArith QArith Qabs List Bool Lia Sorting.Sorted Setoid Morphisms.
 From V Require Import Model.Resample.
 Import ListNotations.
 Open Scope Z_scope.
+
+(* ------------------------------------------------------------------------------------------------ *)
+(* 0. sums                                                                                           *)
+(* ------------------------------------------------------------------------------------------------ *)
+
+Fixpoint sumQ (l : list Q) : Q := match l with [] => 0%Q | x :: r => (x + sumQ r)%Q end.
+
+Lemma qsum_sumQ : forall l, (qsum l == sumQ l)%Q.
+Proof.
+  induction l as [|x l IH]; cbn [qsum sumQ fold_right]; [reflexivity|].
+  fold (qsum l). rewrite Qred_correct, IH. reflexivity.
+Qed.
+
+Lemma sumQ_app : forall a b, (sumQ (a ++ b) == sumQ a + sumQ b)%Q.
+Proof. induction a as [|x a IH]; intros; cbn [sumQ app]; [ring|]. rewrite IH. ring. Qed.
+
+Lemma sumQ_ext : forall {A} (f g : A -> Q) l,
+  (forall x, In x l -> (f x == g x)%Q) -> (sumQ (map f l) == sumQ (map g l))%Q.
+Proof.
+  induction l as [|x l IH]; intros H; cbn [map sumQ]; [reflexivity|].
+  rewrite (H x (or_introl eq_refl)), IH; [reflexivity|]. intros y Hy. apply H. right. exact Hy.
+Qed.
+
+Lemma sumQ_zero : forall {A} (f : A -> Q) l, (forall x, In x l -> (f x == 0)%Q) -> (sumQ (map f l) == 0)%Q.
+Proof.
+  induction l as [|x l IH]; intros H; cbn [map sumQ]; [reflexivity|].
+  rewrite (H x (or_introl eq_refl)), IH; [ring|]. intros y Hy. apply H. right. exact Hy.
+Qed.
+
+Lemma sumQ_plus : forall {A} (f g : A -> Q) l,
+  (sumQ (map (fun x => f x + g x) l) == sumQ (map f l) + sumQ (map g l))%Q.
+Proof. induction l as [|x l IH]; cbn [map sumQ]; [ring|]. rewrite IH. ring. Qed.
+
+Lemma sumQ_scale : forall {A} (f : A -> Q) (k : Q) l,
+  (sumQ (map (fun x => f x * k) l) == sumQ (map f l) * k)%Q.
+Proof. induction l as [|x l IH]; cbn [map sumQ]; [ring|]. rewrite IH. ring. Qed.
+
+(* exchange of two finite sums *)
+Lemma sumQ_swap : forall {A B} (f : A -> B -> Q) la lb,
+  (sumQ (map (fun a => sumQ (map (fun b => f a b) lb)) la) ==
+   sumQ (map (fun b => sumQ (map (fun a => f a b) la)) lb))%Q.
+Proof.
+  induction la as [|a la IH]; intros lb; cbn [map sumQ].
+  - symmetry. apply sumQ_zero. reflexivity.
+  - rewrite IH. rewrite <- sumQ_plus. reflexivity.
+Qed.
+
+Lemma inject_Z_zsum : forall {A} (f : A -> Z) l,
+  (inject_Z (zsum (map f l)) == sumQ (map (fun x => inject_Z (f x)) l))%Q.
+Proof.
+  induction l as [|x l IH]; cbn [map zsum sumQ fold_right]; [reflexivity|].
+  fold (zsum (map f l)). rewrite inject_Z_plus, IH. reflexivity.
+Qed.
+
+Lemma inject_Z_nonzero : forall z, z <> 0 -> ~ (inject_Z z == 0)%Q.
+Proof. intros z Hz E. unfold Qeq in E. cbn in E. lia. Qed.
+
+Lemma zsum_app : forall a b, zsum (a ++ b) = zsum a + zsum b.
+Proof. induction a as [|x a IH]; intros; cbn [zsum app fold_right]; [reflexivity|]. fold (zsum (a ++ b)). fold (zsum a). rewrite IH. lia. Qed.
+
+Lemma zsum_zero : forall {A} (f : A -> Z) l, (forall x, In x l -> f x = 0) -> zsum (map f l) = 0.
+Proof.
+  induction l as [|x l IH]; intros H; cbn [map zsum fold_right]; [reflexivity|].
+  fold (zsum (map f l)). rewrite (H x (or_introl eq_refl)), IH; [reflexivity|]. intros y Hy. apply H. right. exact Hy.
+Qed.
+
+Lemma zsum_nonneg : forall {A} (f : A -> Z) l, (forall x, In x l -> 0 <= f x) -> 0 <= zsum (map f l).
+Proof.
+  induction l as [|x l IH]; intros H; cbn [map zsum fold_right]; [lia|].
+  fold (zsum (map f l)). specialize (H x (or_introl eq_refl)) as Hx.
+  assert (0 <= zsum (map f l)) by (apply IH; intros y Hy; apply H; right; exact Hy). lia.
+Qed.
+
+(* ------------------------------------------------------------------------------------------------ *)
+(* 1. overlap and tilings                                                                            *)
+(* ------------------------------------------------------------------------------------------------ *)
+
 Lemma overlap_nonneg : forall a b c d, 0 <= overlap a b c d.
 Proof. intros. unfold overlap. lia. Qed.
+
+Lemma overlap_le_len : forall a b c d, a <= b -> overlap a b c d <= b - a.
+Proof. intros. unfold overlap. lia. Qed.
+
+Lemma overlap_inside : forall a b c d, c <= a -> b <= d -> a <= b -> overlap a b c d = b - a.
+Proof. intros. unfold overlap. lia. Qed.
+
+Lemma overlap_disjoint : forall a b c d, b <= c \/ d <= a -> overlap a b c d = 0.
+Proof. intros. unfold overlap. lia. Qed.
+
+Lemma overlap_bucket_inside : forall a b c d, a <= c -> d <= b -> c <= d -> overlap a b c d = d - c.
+Proof. intros. unfold overlap. lia. Qed.
+
+(* strictly increasing boundary lists *)
+Fixpoint incr (l : list Z) : Prop :=
+  match l with
+  | a :: ((b :: _) as r) => a < b /\ incr r
+  | _ => True
+  end.
+
+Lemma incr_tail : forall a l, incr (a :: l) -> incr l.
+Proof. intros a [|b l]; cbn; tauto. Qed.
+
+Lemma incr_le_last : forall l a, incr (a :: l) -> a <= last l a.
+Proof.
+  induction l as [|b l IH]; intros a H; cbn [last]; [lia|].
+  destruct H as [Hab H]. specialize (IH b H).
+  destruct l as [|c l]; [cbn in *; lia|].
+  change (last (b :: c :: l) a) with (last (c :: l) a).
+  assert (last (c :: l) a = last (c :: l) b) as -> by (clear; revert c; induction l; intros; cbn; [reflexivity|apply IHl]).
+  lia.
+Qed.
+
+Lemma last_cons_default : forall {A} (l : list A) x d d', last (x :: l) d = last (x :: l) d'.
+Proof. intros A l. induction l as [|y l IH]; intros; [reflexivity|]. change (last (y :: l) d = last (y :: l) d'). apply IH. Qed.
+
+(* the overlaps of [a,b) with the pieces of a tiling add up to its overlap with the tiled range *)
+Lemma overlap_tiling : forall rest c a b, incr (c :: rest) ->
+  zsum (map (fun p => overlap a b (fst p) (snd p)) (pairs (c :: rest))) = overlap a b c (last rest c).
+Proof.
+  induction rest as [|d rest IH]; intros c a b H.
+  - cbn. unfold overlap. lia.
+  - change (pairs (c :: d :: rest)) with ((c, d) :: pairs (d :: rest)).
+    cbn [map zsum fold_right fst snd].
+    fold (zsum (map (fun p => overlap a b (fst p) (snd p)) (pairs (d :: rest)))).
+    destruct H as [Hcd H]. rewrite (IH d a b H).
+    pose proof (incr_le_last rest d H) as Hl.
+    assert (last (d :: rest) c = last rest d) as ->.
+    { destruct rest as [|e rest]; [reflexivity|]. change (last (d :: e :: rest) c) with (last (e :: rest) c).
+      apply last_cons_default. }
+    unfold overlap. lia.
+Qed.
+
+Lemma pairs_in_bounds : forall l c p, incr (c :: l) -> In p (pairs (c :: l)) ->
+  c <= fst p /\ fst p < snd p /\ snd p <= last l c.
+Proof.
+  induction l as [|d l IH]; intros c p H Hp; [destruct Hp|].
+  change (pairs (c :: d :: l)) with ((c, d) :: pairs (d :: l)) in Hp.
+  destruct H as [Hcd H]. pose proof (incr_le_last l d H) as Hl.
+  assert (last (d :: l) c = last l d) as Hlast.
+  { destruct l as [|e l]; [reflexivity|]. change (last (d :: e :: l) c) with (last (e :: l) c). apply last_cons_default. }
+  rewrite Hlast. destruct Hp as [<-|Hp]; cbn [fst snd]; [lia|].
+  specialize (IH d p H Hp). lia.
+Qed.
+
+(* ------------------------------------------------------------------------------------------------ *)
+(* 2. contributions of one interval                                                                  *)
+(* ------------------------------------------------------------------------------------------------ *)
+
+Definition ovl (lo hi : Z) (iv : interval) : Z := overlap (ilo iv) (ihi iv) lo hi.
+
+Lemma contrib_eq : forall lo hi iv,
+  (contrib lo hi iv ==
+   match ival iv with
+   | Some v => v * inject_Z (ovl lo hi iv) / inject_Z (ilen iv)
+   | None => 0
+   end)%Q.
+Proof.
+  intros. unfold contrib, ovl. destruct (ival iv) as [v|]; [|reflexivity].
+  destruct (overlap (ilo iv) (ihi iv) lo hi =? 0) eqn:E; [|reflexivity].
+  apply Z.eqb_eq in E. rewrite E. unfold Qdiv. change (inject_Z 0) with 0%Q. ring.
+Qed.
+
+Lemma contrib_none : forall lo hi iv, ival iv = None -> (contrib lo hi iv == 0)%Q.
+Proof. intros. unfold contrib. rewrite H. reflexivity. Qed.
+
+Lemma contrib_disjoint : forall lo hi iv, ovl lo hi iv = 0 -> (contrib lo hi iv == 0)%Q.
+Proof. intros. unfold contrib. fold (ovl lo hi iv). rewrite H. destruct (ival iv); reflexivity. Qed.
+
+Lemma contrib_inside : forall lo hi iv v, ival iv = Some v -> ilo iv < ihi iv -> lo <= ilo iv -> ihi iv <= hi ->
+  (contrib lo hi iv == v)%Q.
+Proof.
+  intros lo hi iv v Hv Hlen Hlo Hhi. rewrite contrib_eq, Hv. unfold ovl.
+  rewrite overlap_inside by lia. unfold ilen. field.
+  apply inject_Z_nonzero. lia.
+Qed.
+
+Lemma covered_le : forall lo hi iv, 0 <= covered lo hi iv.
+Proof. intros. unfold covered. destruct (ival iv); [apply overlap_nonneg|lia]. Qed.
+
+(* a billed interval spread over a tiling of a range that contains it gives back the billed amount *)
+Lemma contrib_tiling : forall rest c iv v, incr (c :: rest) -> ival iv = Some v -> ilo iv < ihi iv ->
+  c <= ilo iv -> ihi iv <= last rest c ->
+  (sumQ (map (fun p => contrib (fst p) (snd p) iv) (pairs (c :: rest))) == v)%Q.
+Proof.
+  intros rest c iv v Hinc Hv Hlen Hc Hl.
+  rewrite (sumQ_ext _ (fun p => inject_Z (ovl (fst p) (snd p) iv) * (v / inject_Z (ilen iv)))%Q).
+  2:{ intros p _. rewrite contrib_eq, Hv. unfold Qdiv. ring. }
+  rewrite sumQ_scale. rewrite <- (inject_Z_zsum (fun p => ovl (fst p) (snd p) iv)).
+  unfold ovl. rewrite overlap_tiling by exact Hinc. rewrite overlap_inside by lia.
+  unfold ilen. field.
+  apply inject_Z_nonzero. lia.
+Qed.
+
+Lemma contrib_tiling_none : forall l iv, ival iv = None ->
+  (sumQ (map (fun p => contrib (fst p) (snd p) iv) l) == 0)%Q.
+Proof. intros. apply sumQ_zero. intros p _. apply contrib_none. exact H. Qed.
+
+(* ------------------------------------------------------------------------------------------------ *)
+(* 3. the intervals of a series with strictly increasing stamps                                      *)
+(* ------------------------------------------------------------------------------------------------ *)
+
+Definition sorted_rs (rs : list reading) : Prop := incr (map stamp rs).
+
+Lemma sorted_rs_tail : forall r rs, sorted_rs (r :: rs) -> sorted_rs rs.
+Proof. intros r rs H. unfold sorted_rs in *. cbn [map] in H. eapply incr_tail. exact H. Qed.
+
+Lemma last_stamp_last : forall rs r, last_stamp (r :: rs) = last (map stamp rs) (stamp r).
+Proof.
+  induction rs as [|r' rs IH]; intros r; [reflexivity|].
+  change (last_stamp (r :: r' :: rs)) with (last_stamp (r' :: rs)). rewrite IH.
+  cbn [map]. destruct rs as [|r'' rs]; [reflexivity|]. cbn [map].
+  change (last (stamp r' :: stamp r'' :: map stamp rs) (stamp r)) with (last (stamp r'' :: map stamp rs) (stamp r)).
+  apply last_cons_default.
+Qed.
+
+Lemma sorted_first_le_last : forall r rs, sorted_rs (r :: rs) -> stamp r <= last_stamp (r :: rs).
+Proof. intros. rewrite last_stamp_last. apply incr_le_last. exact H. Qed.
+
+(* every interval is non-empty and lies between the first and the last stamp *)
+Lemma intervals_bounds : forall rs iv, sorted_rs rs -> In iv (intervals rs) ->
+  first_stamp rs <= ilo iv /\ ilo iv < ihi iv /\ ihi iv <= last_stamp rs.
+Proof.
+  induction rs as [|r rs IH]; intros iv Hs Hin; [destruct Hin|].
+  destruct rs as [|r' rs]; [destruct Hin|].
+  change (intervals (r :: r' :: rs)) with (mkI (stamp r) (stamp r') (rval r) :: intervals (r' :: rs)) in Hin.
+  pose proof (sorted_rs_tail _ _ Hs) as Hs'.
+  pose proof (sorted_first_le_last _ _ Hs') as Hfl.
+  assert (stamp r < stamp r') as Hlt by (unfold sorted_rs in Hs; cbn in Hs; tauto).
+  change (last_stamp (r :: r' :: rs)) with (last_stamp (r' :: rs)).
+  cbn [first_stamp]. destruct Hin as [<-|Hin]; cbn [ilo ihi]; [lia|].
+  specialize (IH iv Hs' Hin). cbn [first_stamp] in IH. lia.
+Qed.
+
+(* earlier intervals end before later ones begin *)
+Definition before (x y : interval) : Prop := ihi x <= ilo y.
+
+Lemma intervals_sorted : forall rs, sorted_rs rs -> StronglySorted before (intervals rs).
+Proof.
+  induction rs as [|r rs IH]; intros Hs; [constructor|].
+  destruct rs as [|r' rs]; [constructor|].
+  change (intervals (r :: r' :: rs)) with (mkI (stamp r) (stamp r') (rval r) :: intervals (r' :: rs)).
+  pose proof (sorted_rs_tail _ _ Hs) as Hs'.
+  constructor; [apply IH; exact Hs'|].
+  apply Forall_forall. intros y Hy. unfold before. cbn [ihi].
+  pose proof (intervals_bounds _ _ Hs' Hy) as Hb. cbn [first_stamp] in Hb. lia.
+Qed.
+
+Lemma strongly_sorted_split : forall {A} (R : A -> A -> Prop) l1 x l2,
+  StronglySorted R (l1 ++ x :: l2) -> Forall (fun y => R y x) l1 /\ Forall (R x) l2.
+Proof.
+  induction l1 as [|a l1 IH]; intros x l2 H; cbn [app] in H.
+  - inversion H; subst. split; [constructor|assumption].
+  - inversion H as [|? ? Hs Hf]; subst. destruct (IH x l2 Hs) as [H1 H2]. split; [|exact H2].
+    constructor; [|exact H1]. rewrite Forall_forall in Hf. apply Hf. apply in_or_app. right. left. reflexivity.
+Qed.
+
+(* the usage of all closed intervals = all readings but the last *)
+Lemma intervals_values : forall rs,
+  map (fun iv => oq0 (ival iv)) (intervals rs) = map (fun r => oq0 (rval r)) (removelast rs).
+Proof.
+  induction rs as [|r rs IH]; [reflexivity|].
+  destruct rs as [|r' rs]; [reflexivity|].
+  change (intervals (r :: r' :: rs)) with (mkI (stamp r) (stamp r') (rval r) :: intervals (r' :: rs)).
+  change (removelast (r :: r' :: rs)) with (r :: removelast (r' :: rs)).
+  cbn [map ival]. rewrite IH. reflexivity.
+Qed.
+
+(* ------------------------------------------------------------------------------------------------ *)
+(* 4. buckets                                                                                        *)
+(* ------------------------------------------------------------------------------------------------ *)
+
+Lemma bucket_sum_sumQ : forall lo hi ivs, (bucket_sum lo hi ivs == sumQ (map (contrib lo hi) ivs))%Q.
+Proof. intros. unfold bucket_sum. apply qsum_sumQ. Qed.
+
+Lemma bucket_count_nonneg : forall lo hi ivs, 0 <= bucket_count lo hi ivs.
+Proof. intros. unfold bucket_count. apply zsum_nonneg. intros. apply covered_le. Qed.
+
+(* a bucket inside one interval of a sorted series sees that interval only *)
+Lemma bucket_in_period : forall rs iv lo hi, sorted_rs rs -> In iv (intervals rs) ->
+  ilo iv <= lo -> lo <= hi -> hi <= ihi iv ->
+  (bucket_sum lo hi (intervals rs) == contrib lo hi iv)%Q /\
+  bucket_count lo hi (intervals rs) = covered lo hi iv.
+Proof.
+  intros rs iv lo hi Hs Hin Hlo Hle Hhi.
+  destruct (in_split _ _ Hin) as (l1 & l2 & E).
+  pose proof (intervals_sorted rs Hs) as Hss. rewrite E in Hss.
+  destruct (strongly_sorted_split _ _ _ _ Hss) as [H1 H2].
+  rewrite Forall_forall in H1, H2. unfold before in H1, H2.
+  assert (forall y, In y l1 \/ In y l2 -> ovl lo hi y = 0) as Hz.
+  { intros y [Hy|Hy]; unfold ovl; apply overlap_disjoint; [specialize (H1 y Hy)|specialize (H2 y Hy)]; lia. }
+  split.
+  - rewrite bucket_sum_sumQ, E, map_app, sumQ_app. cbn [map sumQ].
+    rewrite (sumQ_zero (contrib lo hi) l1), (sumQ_zero (contrib lo hi) l2); [ring| |];
+      intros y Hy; apply contrib_disjoint; apply Hz; tauto.
+  - unfold bucket_count. rewrite E, map_app, zsum_app. cbn [map zsum fold_right].
+    fold (zsum (map (covered lo hi) l2)).
+    rewrite (zsum_zero (covered lo hi) l1), (zsum_zero (covered lo hi) l2); [lia| |];
+      intros y Hy; unfold covered; destruct (ival y); try reflexivity; apply Hz; tauto.
+Qed.
+
+(* ------------------------------------------------------------------------------------------------ *)
+(* 5. conservation                                                                                   *)
+(* ------------------------------------------------------------------------------------------------ *)
+
+(* billing_period_conserved: the local days that tile a billed period [ilo, ihi) add up to the billed amount,
+   every one of them is covered completely (so none is missing), whatever the lengths of the days *)
+Lemma period_conserved_l : forall rs iv v c mid,
+  sorted_rs rs -> In iv (intervals rs) -> ival iv = Some v ->
+  incr (c :: mid) -> c = ilo iv -> last mid c = ihi iv ->
+  (sumQ (map (fun p => bucket_sum (fst p) (snd p) (intervals rs)) (pairs (c :: mid))) == v)%Q /\
+  forall p, In p (pairs (c :: mid)) ->
+    bucket_count (fst p) (snd p) (intervals rs) = snd p - fst p /\
+    bucket_value (fst p) (snd p) (intervals rs) = Some (bucket_sum (fst p) (snd p) (intervals rs)).
+Proof.
+  intros rs iv v c mid Hs Hin Hv Hinc Hc Hl.
+  pose proof (intervals_bounds rs iv Hs Hin) as (_ & Hlen & _).
+  assert (forall p, In p (pairs (c :: mid)) -> ilo iv <= fst p /\ fst p < snd p /\ snd p <= ihi iv) as Hp.
+  { intros p Hp. pose proof (pairs_in_bounds mid c p Hinc Hp). lia. }
+  split.
+  - rewrite (sumQ_ext _ (fun p => contrib (fst p) (snd p) iv)).
+    + apply contrib_tiling; try assumption; lia.
+    + intros p Hin'. destruct (Hp p Hin') as (H1 & H2 & H3).
+      apply (bucket_in_period rs iv (fst p) (snd p) Hs Hin); lia.
+  - intros p Hin'. destruct (Hp p Hin') as (H1 & H2 & H3).
+    destruct (bucket_in_period rs iv (fst p) (snd p) Hs Hin) as [_ Hc']; try lia.
+    assert (bucket_count (fst p) (snd p) (intervals rs) = snd p - fst p) as Hcnt.
+    { rewrite Hc'. unfold covered. rewrite Hv. apply overlap_bucket_inside; lia. }
+    split; [exact Hcnt|]. unfold bucket_value. rewrite Hcnt.
+    destruct (snd p - fst p =? 0) eqn:E; [apply Z.eqb_eq in E; lia|reflexivity].
+Qed.
+
+(* an interval without usage (NaN reading, or a period blanked by the off-cycle filter): every day inside it is
+   missing *)
+Lemma period_missing_l : forall rs iv lo hi, sorted_rs rs -> In iv (intervals rs) -> ival iv = None ->
+  ilo iv <= lo -> lo <= hi -> hi <= ihi iv -> bucket_value lo hi (intervals rs) = None.
+Proof.
+  intros rs iv lo hi Hs Hin Hv H1 H2 H3.
+  destruct (bucket_in_period rs iv lo hi Hs Hin H1 H2 H3) as [_ Hc].
+  unfold bucket_value. rewrite Hc. unfold covered. rewrite Hv. reflexivity.
+Qed.
+
+Lemma zsum_zero_inv : forall {A} (f : A -> Z) l, (forall x, In x l -> 0 <= f x) -> zsum (map f l) = 0 ->
+  forall x, In x l -> f x = 0.
+Proof.
+  induction l as [|y l IH]; intros Hn Hz x Hx; [destruct Hx|].
+  cbn [map zsum fold_right] in Hz. fold (zsum (map f l)) in Hz.
+  pose proof (Hn y (or_introl eq_refl)) as Hy.
+  assert (0 <= zsum (map f l)) as Hr by (apply zsum_nonneg; intros z Hz'; apply Hn; right; exact Hz').
+  destruct Hx as [<-|Hx]; [lia|]. apply IH; try assumption; [intros z Hz'; apply Hn; right; exact Hz'|lia].
+Qed.
+
+(* the value of a bucket, read as a number (NaN as 0), is its usage *)
+Lemma bucket_value_sum : forall lo hi ivs, (oq0 (bucket_value lo hi ivs) == bucket_sum lo hi ivs)%Q.
+Proof.
+  intros lo hi ivs. unfold bucket_value. destruct (bucket_count lo hi ivs =? 0) eqn:E; [|reflexivity].
+  apply Z.eqb_eq in E. cbn [oq0]. rewrite bucket_sum_sumQ. symmetry. apply sumQ_zero. intros iv Hiv.
+  pose proof (zsum_zero_inv (covered lo hi) ivs (fun x _ => covered_le lo hi x) E iv Hiv) as Hc.
+  unfold covered in Hc. destruct (ival iv) as [v|] eqn:Ev; [|apply contrib_none; exact Ev].
+  apply contrib_disjoint. exact Hc.
+Qed.
+
+(* nothing_invented: over a tiling that spans the series, the buckets add up to the readings of all closed
+   intervals (every reading but the open-ended last one) *)
+Lemma nothing_invented_l : forall rs c rest, sorted_rs rs -> incr (c :: rest) ->
+  c <= first_stamp rs -> last_stamp rs <= last rest c ->
+  (sumQ (map (fun p => bucket_sum (fst p) (snd p) (intervals rs)) (pairs (c :: rest))) ==
+   sumQ (map (fun r => oq0 (rval r)) (removelast rs)))%Q.
+Proof.
+  intros rs c rest Hs Hinc Hc Hl.
+  rewrite (sumQ_ext _ (fun p => sumQ (map (fun iv => contrib (fst p) (snd p) iv) (intervals rs)))).
+  2:{ intros p _. apply bucket_sum_sumQ. }
+  rewrite (sumQ_swap (fun p iv => contrib (fst p) (snd p) iv)).
+  rewrite <- intervals_values.
+  apply sumQ_ext. intros iv Hiv.
+  pose proof (intervals_bounds rs iv Hs Hiv) as (H1 & H2 & H3).
+  destruct (ival iv) as [v|] eqn:Ev; cbn [oq0].
+  - apply contrib_tiling; try assumption; lia.
+  - apply contrib_tiling_none. exact Ev.
+Qed.
+
+(* ------------------------------------------------------------------------------------------------ *)
+(* 6. as_freq_cum row by row                                                                         *)
+(* ------------------------------------------------------------------------------------------------ *)
+
+Lemma rows_of_spec : forall ivs bk,
+  map (fun r => (d_lo r, d_hi r, d_val r)) (rows_of ivs bk) =
+  map (fun p => (fst p, snd p, bucket_value (fst p) (snd p) ivs)) bk.
+Proof.
+  induction bk as [|[lo hi] bk IH]; [reflexivity|].
+  cbn [rows_of map d_lo d_hi d_val fst snd]. rewrite IH. reflexivity.
+Qed.
+
+Lemma as_freq_cum_spec : forall rs bs,
+  map (fun r => (d_lo r, d_hi r, d_val r)) (as_freq_cum rs bs) =
+  map (fun p => (fst p, snd p, bucket_value (fst p) (snd p) (intervals rs))) (filter (relevant rs) (pairs bs)).
+Proof. intros. unfold as_freq_cum. apply rows_of_spec. Qed.
+
+Lemma rows_of_cov : forall ivs bk r, In r (removelast (rows_of ivs bk)) ->
+  d_cov r = coverage (d_lo r) (d_hi r) ivs false.
+Proof.
+  induction bk as [|[lo hi] bk IH]; intros r Hr; [destruct Hr|].
+  cbn [rows_of] in Hr. destruct bk as [|q bk]; [destruct Hr|].
+  destruct q as [lo' hi'].
+  change (rows_of ivs ((lo', hi') :: bk)) with
+    (mkD lo' hi' (bucket_value lo' hi' ivs) (coverage lo' hi' ivs (match bk with [] => true | _ => false end)) :: rows_of ivs bk) in Hr.
+  cbn [removelast] in Hr.
+  destruct Hr as [<-|Hr]; [reflexivity|].
+  apply IH. cbn [rows_of]. exact Hr.
+Qed.
+
+Lemma sumQ_filter : forall {A} (f : A -> bool) (g : A -> Q) l,
+  (forall x, In x l -> f x = false -> (g x == 0)%Q) ->
+  (sumQ (map g (filter f l)) == sumQ (map g l))%Q.
+Proof.
+  induction l as [|x l IH]; intros H; [reflexivity|].
+  cbn [filter]. destruct (f x) eqn:E; cbn [map sumQ].
+  - rewrite IH; [reflexivity|]. intros y Hy. apply H. right. exact Hy.
+  - rewrite IH, (H x (or_introl eq_refl) E); [ring|]. intros y Hy. apply H. right. exact Hy.
+Qed.
+
+(* buckets that pandas does not create (before the first / after the last stamp) hold no usage *)
+Lemma irrelevant_empty : forall rs p, sorted_rs rs -> relevant rs p = false ->
+  (bucket_sum (fst p) (snd p) (intervals rs) == 0)%Q.
+Proof.
+  intros rs p Hs Hr. rewrite bucket_sum_sumQ. apply sumQ_zero. intros iv Hiv.
+  pose proof (intervals_bounds rs iv Hs Hiv) as (H1 & H2 & H3).
+  apply contrib_disjoint. unfold ovl. apply overlap_disjoint.
+  unfold relevant in Hr. apply andb_false_iff in Hr. destruct Hr as [Hr|Hr].
+  - apply Z.ltb_ge in Hr. lia.
+  - apply Z.leb_gt in Hr. lia.
+Qed.
+
+(* nothing_invented for the rows as_freq returns *)
+Lemma as_freq_conserves_l : forall rs c rest, sorted_rs rs -> incr (c :: rest) ->
+  c <= first_stamp rs -> last_stamp rs <= last rest c ->
+  (sumQ (map (fun r => oq0 (d_val r)) (as_freq_cum rs (c :: rest))) ==
+   sumQ (map (fun r => oq0 (rval r)) (removelast rs)))%Q.
+Proof.
+  intros rs c rest Hs Hinc Hc Hl.
+  rewrite <- (nothing_invented_l rs c rest Hs Hinc Hc Hl).
+  assert (map (fun r => oq0 (d_val r)) (as_freq_cum rs (c :: rest)) =
+          map (fun t => oq0 (snd t)) (map (fun r => (d_lo r, d_hi r, d_val r)) (as_freq_cum rs (c :: rest)))) as ->
+    by (rewrite map_map; reflexivity).
+  rewrite as_freq_cum_spec, map_map. cbn [snd].
+  rewrite (sumQ_filter (relevant rs) (fun p => oq0 (bucket_value (fst p) (snd p) (intervals rs)))).
+  - apply sumQ_ext. intros p _. apply bucket_value_sum.
+  - intros p _ Hr. rewrite bucket_value_sum. apply irrelevant_empty; assumption.
+Qed.
+
+(* ------------------------------------------------------------------------------------------------ *)
+(* 7. days of aligned sub-daily readings                                                             *)
+(* ------------------------------------------------------------------------------------------------ *)
+
+Definition inside (lo hi : Z) (iv : interval) : bool := (lo <=? ilo iv) && (ihi iv <=? hi).
+
+(* no reading interval straddles a boundary of the bucket *)
+Definition no_straddle (lo hi : Z) (ivs : list interval) : Prop :=
+  forall iv, In iv ivs ->
+    ilo iv < ihi iv /\ (ihi iv <= lo \/ hi <= ilo iv \/ (lo <= ilo iv /\ ihi iv <= hi)).
+
+Lemma no_straddle_tail : forall lo hi iv ivs, no_straddle lo hi (iv :: ivs) -> no_straddle lo hi ivs.
+Proof. intros lo hi iv ivs H x Hx. apply H. right. exact Hx. Qed.
+
+Lemma bucket_sum_inside : forall lo hi ivs, lo <= hi -> no_straddle lo hi ivs ->
+  (bucket_sum lo hi ivs == sumQ (map (fun iv => oq0 (ival iv)) (filter (inside lo hi) ivs)))%Q.
+Proof.
+  intros lo hi ivs Hle. rewrite bucket_sum_sumQ.
+  induction ivs as [|iv ivs IH]; intros Hn; [reflexivity|].
+  cbn [map sumQ filter]. rewrite (IH (no_straddle_tail _ _ _ _ Hn)).
+  destruct (Hn iv (or_introl eq_refl)) as [Hlen Hpos]. unfold inside.
+  destruct Hpos as [Hb|[Ha|[H1 H2]]].
+  - assert ((lo <=? ilo iv) && (ihi iv <=? hi) = false \/ ((lo <=? ilo iv) && (ihi iv <=? hi) = true)) as [E|E]
+      by (destruct ((lo <=? ilo iv) && (ihi iv <=? hi)); auto).
+    + rewrite E, contrib_disjoint; [ring|]. unfold ovl. apply overlap_disjoint. lia.
+    + apply andb_true_iff in E. destruct E as [E1 E2]. apply Z.leb_le in E1. lia.
+  - assert ((lo <=? ilo iv) && (ihi iv <=? hi) = false \/ ((lo <=? ilo iv) && (ihi iv <=? hi) = true)) as [E|E]
+      by (destruct ((lo <=? ilo iv) && (ihi iv <=? hi)); auto).
+    + rewrite E, contrib_disjoint; [ring|]. unfold ovl. apply overlap_disjoint. lia.
+    + apply andb_true_iff in E. destruct E as [E1 E2]. apply Z.leb_le in E2. lia.
+  - assert ((lo <=? ilo iv) && (ihi iv <=? hi) = true) as -> by (apply andb_true_iff; split; apply Z.leb_le; lia).
+    cbn [map sumQ]. destruct (ival iv) as [v|] eqn:Ev; cbn [oq0].
+    + rewrite (contrib_inside lo hi iv v Ev Hlen H1 H2). reflexivity.
+    + rewrite (contrib_none lo hi iv Ev). reflexivity.
+Qed.
+
+Definition present_len (iv : interval) : Z := if is_some (ival iv) then ilen iv else 0.
+
+Lemma bucket_count_inside : forall lo hi ivs, lo <= hi -> no_straddle lo hi ivs ->
+  bucket_count lo hi ivs = zsum (map present_len (filter (inside lo hi) ivs)).
+Proof.
+  intros lo hi ivs Hle. unfold bucket_count.
+  induction ivs as [|iv ivs IH]; intros Hn; [reflexivity|].
+  cbn [map zsum fold_right filter]. fold (zsum (map (covered lo hi) ivs)).
+  rewrite (IH (no_straddle_tail _ _ _ _ Hn)).
+  destruct (Hn iv (or_introl eq_refl)) as [Hlen Hpos]. unfold inside.
+  assert (forall b : bool, b = false \/ b = true) as Hb by (intros []; auto).
+  destruct Hpos as [Hp|[Hp|[H1 H2]]].
+  - destruct (Hb ((lo <=? ilo iv) && (ihi iv <=? hi))) as [E|E]; rewrite E.
+    + cbv iota. unfold covered, zsum. destruct (ival iv); [rewrite overlap_disjoint by lia|]; lia.
+    + apply andb_true_iff in E. destruct E as [E1 E2]. apply Z.leb_le in E1. lia.
+  - destruct (Hb ((lo <=? ilo iv) && (ihi iv <=? hi))) as [E|E]; rewrite E.
+    + cbv iota. unfold covered, zsum. destruct (ival iv); [rewrite overlap_disjoint by lia|]; lia.
+    + apply andb_true_iff in E. destruct E as [E1 E2]. apply Z.leb_le in E2. lia.
+  - assert ((lo <=? ilo iv) && (ihi iv <=? hi) = true) as -> by (apply andb_true_iff; split; apply Z.leb_le; lia).
+    cbn [map zsum fold_right]. fold (zsum (map present_len (filter (fun iv0 => (lo <=? ilo iv0) && (ihi iv0 <=? hi)) ivs))).
+    unfold covered, present_len, ilen. destruct (ival iv); cbn [is_some]; [rewrite overlap_inside by lia|]; lia.
+Qed.
+
+(* equality of optional rationals up to == *)
+Definition oq_eq (a b : option Q) : Prop :=
+  match a, b with Some x, Some y => (x == y)%Q | None, None => True | _, _ => False end.
+
+Lemma qltb_true : forall a b, qltb a b = true <-> (a < b)%Q.
+Proof.
+  intros a b. unfold qltb. rewrite negb_true_iff. split.
+  - intros H. apply Qnot_le_lt. intro Hle. apply Qle_bool_iff in Hle. congruence.
+  - intros H. destruct (Qle_bool b a) eqn:E; [|reflexivity]. apply Qle_bool_iff in E.
+    exfalso. apply (Qlt_not_le _ _ H E).
+Qed.
+
+Lemma qltb_false : forall a b, qltb a b = false <-> (b <= a)%Q.
+Proof.
+  intros a b. unfold qltb. rewrite negb_false_iff. apply Qle_bool_iff.
+Qed.
+
+Lemma coverage_day : forall lo hi ivs,
+  coverage lo hi ivs false = (inject_Z (bucket_count lo hi ivs) / inject_Z (hi - lo))%Q.
+Proof. reflexivity. Qed.
+
+(* sparse_day: covered for half or less -> missing *)
+Lemma sparse_day_l : forall lo hi ivs, (coverage lo hi ivs false <= 1 # 2)%Q -> clean_day lo hi ivs false = None.
+Proof.
+  intros lo hi ivs H. unfold clean_day, clean_value.
+  assert (qltb half (coverage lo hi ivs false) = false) as -> by (apply qltb_false; exact H). reflexivity.
+Qed.
+
+(* partial_day: covered for more than half -> the covered usage divided by the coverage *)
+Lemma partial_day_l : forall lo hi ivs, lo < hi -> (1 # 2 < coverage lo hi ivs false)%Q ->
+  oq_eq (clean_day lo hi ivs false) (Some (bucket_sum lo hi ivs / coverage lo hi ivs false)%Q).
+Proof.
+  intros lo hi ivs Hlt H. unfold clean_day, clean_value.
+  assert (qltb half (coverage lo hi ivs false) = true) as -> by (apply qltb_true; exact H).
+  unfold bucket_value. destruct (bucket_count lo hi ivs =? 0) eqn:E.
+  - exfalso. apply Z.eqb_eq in E. rewrite coverage_day, E in H.
+    assert ((inject_Z 0 / inject_Z (hi - lo)) == 0)%Q as Hz by (unfold Qdiv; change (inject_Z 0) with 0%Q; ring).
+    rewrite Hz in H. discriminate H.
+  - cbn [option_map oq_eq]. reflexivity.
+Qed.
+
+(* subdaily_full_day: aligned readings, the day covered completely -> the sum of the readings in the day,
+   whatever the length of the day *)
+Lemma full_day_l : forall lo hi ivs, lo < hi -> no_straddle lo hi ivs ->
+  bucket_count lo hi ivs = hi - lo ->
+  oq_eq (clean_day lo hi ivs false)
+        (Some (sumQ (map (fun iv => oq0 (ival iv)) (filter (inside lo hi) ivs)))).
+Proof.
+  intros lo hi ivs Hlt Hn Hc.
+  assert (coverage lo hi ivs false == 1)%Q as Hcov.
+  { rewrite coverage_day, Hc. field. apply inject_Z_nonzero. lia. }
+  assert (1 # 2 < coverage lo hi ivs false)%Q as Hhalf by (rewrite Hcov; reflexivity).
+  pose proof (partial_day_l lo hi ivs Hlt Hhalf) as H.
+  destruct (clean_day lo hi ivs false) as [x|]; cbn [oq_eq] in *; [|exact H].
+  rewrite H, Hcov, (bucket_sum_inside lo hi ivs) by (try lia; exact Hn). field.
+Qed.
+
+(* a regular series (every reading closed by the next slot) whose slots are in phase with the bucket boundaries
+   has no straddling interval: 15/30/60-minute readings and local days of 23, 24 or 25 hours alike *)
+Lemma regular_no_straddle : forall ivs step t0 lo hi, 0 < step ->
+  (forall iv, In iv ivs -> ihi iv = ilo iv + step /\ (step | ilo iv - t0)) ->
+  (step | lo - t0) -> (step | hi - t0) -> no_straddle lo hi ivs.
+Proof.
+  intros ivs step t0 lo hi Hs Hreg [m Hm] [n Hn] iv Hiv.
+  destruct (Hreg iv Hiv) as [Hhi [k Hk]]. split; [lia|].
+  destruct (Z_le_gt_dec m k) as [Hmk|Hmk]; destruct (Z_le_gt_dec (k + 1) n) as [Hkn|Hkn].
+  - right. right. nia.
+  - right. left. nia.
+  - left. nia.
+  - left. nia.
+Qed.
+
+(* ------------------------------------------------------------------------------------------------ *)
+(* 8. clean_billing_data: off-cycle periods                                                          *)
+(* ------------------------------------------------------------------------------------------------ *)
+
+Definition filter_iv (cal : bool) (offs : list (Z * Z)) (g : gran) (iv : interval) : interval :=
+  mkI (ilo iv) (ihi iv) (if valid_len g (whole_days cal offs (ilo iv) (ihi iv)) then ival iv else None).
+
+Lemma offcycle_head : forall cal offs g r rest, exists v, exists tl, offcycle_filter cal offs g (r :: rest) = (stamp r, v) :: tl.
+Proof. intros cal offs g r [|r' rest]; cbn [offcycle_filter]; eauto. Qed.
+
+Lemma offcycle_intervals_cons : forall cal offs g rest r,
+  intervals (offcycle_filter cal offs g (r :: rest)) = map (filter_iv cal offs g) (intervals (r :: rest)).
+Proof.
+  intros cal offs g. induction rest as [|r' rest IH]; intros r; [reflexivity|].
+  change (offcycle_filter cal offs g (r :: r' :: rest)) with
+    ((stamp r, if valid_len g (whole_days cal offs (stamp r) (stamp r')) then rval r else None) :: offcycle_filter cal offs g (r' :: rest)).
+  change (intervals (r :: r' :: rest)) with (mkI (stamp r) (stamp r') (rval r) :: intervals (r' :: rest)).
+  cbn [map]. rewrite <- (IH r').
+  destruct (offcycle_head cal offs g r' rest) as (v & tl & E). rewrite E.
+  cbn [intervals stamp rval fst snd]. unfold filter_iv. cbn [ilo ihi ival]. reflexivity.
+Qed.
+
+Lemma offcycle_intervals : forall cal offs g rs, intervals (offcycle_filter cal offs g rs) = map (filter_iv cal offs g) (intervals rs).
+Proof. intros cal offs g [|r rest]; [reflexivity|apply offcycle_intervals_cons]. Qed.
+
+Lemma offcycle_stamps_cons : forall cal offs g rest r, map stamp (offcycle_filter cal offs g (r :: rest)) = map stamp (r :: rest).
+Proof.
+  intros cal offs g. induction rest as [|r' rest IH]; intros r; [reflexivity|].
+  change (offcycle_filter cal offs g (r :: r' :: rest)) with
+    ((stamp r, if valid_len g (whole_days cal offs (stamp r) (stamp r')) then rval r else None) :: offcycle_filter cal offs g (r' :: rest)).
+  cbn [map]. rewrite (IH r'). reflexivity.
+Qed.
+
+Lemma offcycle_stamps : forall cal offs g rs, map stamp (offcycle_filter cal offs g rs) = map stamp rs.
+Proof. intros cal offs g [|r rest]; [reflexivity|apply offcycle_stamps_cons]. Qed.
+
+Lemma valid_len_spec : forall g d, valid_len g d = true <-> 25 <= d <= max_days g.
+Proof. intros. unfold valid_len. rewrite andb_true_iff, !Z.leb_le. tauto. Qed.
+
+Lemma clean_billing_cases : forall cal offs g rs, clean_billing cal offs g rs = [] \/ clean_billing cal offs g rs = offcycle_filter cal offs g rs.
+Proof. intros. unfold clean_billing. destruct (all_nan rs); [auto|]. destruct (all_nan (offcycle_filter cal offs g rs)); auto. Qed.
+
+(* offcycle_dropped: whatever still carries usage after cleaning is a period of valid length with the billed amount
+   of the input *)
+Lemma offcycle_dropped_l : forall cal offs g rs iv v, In iv (intervals (clean_billing cal offs g rs)) -> ival iv = Some v ->
+  25 <= whole_days cal offs (ilo iv) (ihi iv) <= max_days g /\ In (mkI (ilo iv) (ihi iv) (Some v)) (intervals rs).
+Proof.
+  intros cal offs g rs iv v Hin Hv. destruct (clean_billing_cases cal offs g rs) as [E|E]; rewrite E in Hin; [destruct Hin|].
+  rewrite offcycle_intervals in Hin. apply in_map_iff in Hin. destruct Hin as (iv0 & <- & Hin0).
+  unfold filter_iv in *. cbn [ilo ihi ival] in *.
+  destruct (valid_len g (whole_days cal offs (ilo iv0) (ihi iv0))) eqn:Ev; [|discriminate].
+  split; [apply valid_len_spec; exact Ev|]. rewrite <- Hv. destruct iv0; exact Hin0.
+Qed.
+
+Lemma intervals_some_not_all_nan_cons : forall rest r lo hi v,
+  In (mkI lo hi (Some v)) (intervals (r :: rest)) -> all_nan (r :: rest) = false.
+Proof.
+  induction rest as [|r' rest IH]; intros r lo hi v Hin; [destruct Hin|].
+  change (intervals (r :: r' :: rest)) with (mkI (stamp r) (stamp r') (rval r) :: intervals (r' :: rest)) in Hin.
+  unfold all_nan. cbn [forallb]. destruct Hin as [E|Hin].
+  - injection E as _ _ E. rewrite E. reflexivity.
+  - apply andb_false_iff. right. apply (IH r' lo hi v Hin).
+Qed.
+
+Lemma intervals_some_not_all_nan : forall rs lo hi v, In (mkI lo hi (Some v)) (intervals rs) -> all_nan rs = false.
+Proof. intros [|r rest] lo hi v Hin; [destruct Hin|eapply intervals_some_not_all_nan_cons; exact Hin]. Qed.
+
+(* ... and every period of valid length keeps its billed amount *)
+Lemma valid_period_kept_l : forall cal offs g rs lo hi v, In (mkI lo hi (Some v)) (intervals rs) ->
+  25 <= whole_days cal offs lo hi <= max_days g -> In (mkI lo hi (Some v)) (intervals (clean_billing cal offs g rs)).
+Proof.
+  intros cal offs g rs lo hi v Hin Hd.
+  assert (In (mkI lo hi (Some v)) (intervals (offcycle_filter cal offs g rs))) as Hf.
+  { rewrite offcycle_intervals. apply in_map_iff. exists (mkI lo hi (Some v)). split; [|exact Hin].
+    unfold filter_iv. cbn [ilo ihi ival]. apply valid_len_spec in Hd. rewrite Hd. reflexivity. }
+  unfold clean_billing. rewrite (intervals_some_not_all_nan rs lo hi v Hin).
+  rewrite (intervals_some_not_all_nan _ lo hi v Hf). exact Hf.
+Qed.
+
+(* an off-cycle period is blanked: in the cleaned series it is an interval without usage *)
+Lemma offcycle_period_blank_l : forall cal offs g rs iv, In iv (intervals rs) ->
+  ~ (25 <= whole_days cal offs (ilo iv) (ihi iv) <= max_days g) -> clean_billing cal offs g rs <> [] ->
+  In (mkI (ilo iv) (ihi iv) None) (intervals (clean_billing cal offs g rs)).
+Proof.
+  intros cal offs g rs iv Hin Hd Hne. destruct (clean_billing_cases cal offs g rs) as [E|E]; [contradiction|]. rewrite E.
+  rewrite offcycle_intervals. apply in_map_iff. exists iv. split; [|exact Hin].
+  unfold filter_iv. destruct (valid_len g (whole_days cal offs (ilo iv) (ihi iv))) eqn:Ev; [|reflexivity].
+  apply valid_len_spec in Ev. contradiction.
+Qed.
+
+Lemma clean_billing_sorted : forall cal offs g rs, sorted_rs rs -> sorted_rs (clean_billing cal offs g rs).
+Proof.
+  intros cal offs g rs Hs. destruct (clean_billing_cases cal offs g rs) as [E|E]; rewrite E; [exact I|].
+  unfold sorted_rs. rewrite offcycle_stamps. exact Hs.
+Qed.
+
+(* ------------------------------------------------------------------------------------------------ *)
+(* 9. looking a day up in the rows (the data classes' merge on the day index)                        *)
+(* ------------------------------------------------------------------------------------------------ *)
+
+Lemma pairs_fst_sorted : forall l c, incr (c :: l) -> StronglySorted Z.lt (map fst (pairs (c :: l))).
+Proof.
+  induction l as [|d l IH]; intros c H; [constructor|].
+  change (pairs (c :: d :: l)) with ((c, d) :: pairs (d :: l)). cbn [map fst].
+  destruct H as [Hcd H]. constructor; [apply IH; exact H|].
+  apply Forall_forall. intros x Hx. apply in_map_iff in Hx. destruct Hx as (p & <- & Hp).
+  pose proof (pairs_in_bounds l d p H Hp). lia.
+Qed.
+
+Lemma pairs_fst_sorted' : forall bs, incr bs -> StronglySorted Z.lt (map fst (pairs bs)).
+Proof. intros [|c l] H; [constructor|apply pairs_fst_sorted; exact H]. Qed.
+
+Lemma sorted_filter : forall {A} (f : A -> Z) (g : A -> bool) l,
+  StronglySorted Z.lt (map f l) -> StronglySorted Z.lt (map f (filter g l)).
+Proof.
+  induction l as [|x l IH]; intros H; [constructor|].
+  cbn [map] in H. inversion H as [|? ? Hs Hf]; subst. cbn [filter].
+  destruct (g x); [|apply IH; exact Hs]. cbn [map]. constructor; [apply IH; exact Hs|].
+  apply Forall_forall. intros y Hy. rewrite Forall_forall in Hf. apply Hf.
+  apply in_map_iff in Hy. destruct Hy as (z & <- & Hz). apply filter_In in Hz. apply in_map. tauto.
+Qed.
+
+Lemma sorted_last_max : forall {A} (f : A -> Z) l d x,
+  StronglySorted Z.lt (map f l) -> In x l -> f x <= f (last l d).
+Proof.
+  induction l as [|y l IH]; intros d x H Hx; [destruct Hx|].
+  cbn [map] in H. inversion H as [|? ? Hs Hf]; subst.
+  destruct l as [|z l]; [destruct Hx as [<-|[]]; cbn; lia|].
+  change (last (y :: z :: l) d) with (last (z :: l) d).
+  destruct Hx as [<-|Hx]; [|apply IH; assumption].
+  rewrite Forall_forall in Hf.
+  assert (f y < f (last (z :: l) d)); [|lia].
+  apply Hf. apply in_map. clear. revert z. induction l as [|w l IHl]; intros z; [left; reflexivity|].
+  change (last (z :: w :: l) d) with (last (w :: l) d). right. apply IHl.
+Qed.
+
+Lemma in_removelast : forall {A} (l : list A) x d, In x l -> x <> last l d -> In x (removelast l).
+Proof.
+  induction l as [|y l IH]; intros x d Hx Hn; [destruct Hx|].
+  destruct l as [|z l]; [destruct Hx as [<-|[]]; cbn in Hn; congruence|].
+  change (removelast (y :: z :: l)) with (y :: removelast (z :: l)).
+  change (last (y :: z :: l) d) with (last (z :: l) d) in Hn.
+  destruct Hx as [<-|Hx]; [left; reflexivity|right; apply (IH x d); assumption].
+Qed.
+
+Lemma removelast_incl : forall {A} (l : list A) x, In x (removelast l) -> In x l.
+Proof.
+  induction l as [|y [|z l] IH]; intros x Hx; [destruct Hx|destruct Hx|].
+  change (removelast (y :: z :: l)) with (y :: removelast (z :: l)) in Hx.
+  destruct Hx as [<-|Hx]; [left; reflexivity|right; apply IH; exact Hx].
+Qed.
+
+Lemma map_removelast : forall {A B} (f : A -> B) l, map f (removelast l) = removelast (map f l).
+Proof.
+  induction l as [|y [|z l] IH]; [reflexivity|reflexivity|].
+  change (removelast (y :: z :: l)) with (y :: removelast (z :: l)). cbn [map] in *.
+  change (removelast (f y :: f z :: map f l)) with (f y :: removelast (f z :: map f l)). rewrite IH. reflexivity.
+Qed.
+
+Lemma sorted_removelast : forall l, StronglySorted Z.lt l -> StronglySorted Z.lt (removelast l).
+Proof.
+  induction l as [|y [|z l] IH]; intros H; [constructor|constructor|].
+  change (removelast (y :: z :: l)) with (y :: removelast (z :: l)).
+  inversion H as [|? ? Hs Hf]; subst. constructor; [apply IH; exact Hs|].
+  apply Forall_forall. intros x Hx. rewrite Forall_forall in Hf. apply Hf. apply removelast_incl. exact Hx.
+Qed.
+
+Lemma removelast_rows_spec : forall l, removelast_rows l = removelast l.
+Proof. induction l as [|x [|y l] IH]; [reflexivity|reflexivity|]. cbn [removelast_rows removelast] in *. rewrite IH. reflexivity. Qed.
+
+Lemma rows_of_removelast : forall ivs bk,
+  map (fun r => (d_lo r, d_hi r, d_val r, d_cov r)) (removelast (rows_of ivs bk)) =
+  map (fun p => (fst p, snd p, bucket_value (fst p) (snd p) ivs, coverage (fst p) (snd p) ivs false)) (removelast bk).
+Proof.
+  induction bk as [|[lo hi] bk IH]; [reflexivity|].
+  destruct bk as [|[lo' hi'] bk]; [reflexivity|].
+  change (removelast ((lo, hi) :: (lo', hi') :: bk)) with ((lo, hi) :: removelast ((lo', hi') :: bk)).
+  change (rows_of ivs ((lo, hi) :: (lo', hi') :: bk)) with
+    (mkD lo hi (bucket_value lo hi ivs) (coverage lo hi ivs false) :: rows_of ivs ((lo', hi') :: bk)).
+  assert (exists r rest, rows_of ivs ((lo', hi') :: bk) = r :: rest) as (r & rest & E) by (cbn [rows_of]; eauto).
+  rewrite E in *. change (removelast (?a :: r :: rest)) with (a :: removelast (r :: rest)).
+  cbn [map d_lo d_hi d_val d_cov fst snd]. rewrite IH. reflexivity.
+Qed.
+
+(* find on a list whose keys are strictly increasing returns the entry with the key *)
+Lemma find_sorted : forall {A} (key : A -> Z) l x,
+  StronglySorted Z.lt (map key l) -> In x l -> find (fun r => key r =? key x) l = Some x.
+Proof.
+  induction l as [|y l IH]; intros x H Hx; [destruct Hx|].
+  cbn [map] in H. inversion H as [|? ? Hs Hf]; subst. cbn [find].
+  destruct Hx as [<-|Hx]; [rewrite Z.eqb_refl; reflexivity|].
+  rewrite Forall_forall in Hf. assert (key y < key x) by (apply Hf; apply in_map; exact Hx).
+  destruct (key y =? key x) eqn:E; [apply Z.eqb_eq in E; lia|]. apply IH; assumption.
+Qed.
+
+Lemma find_ext_key : forall {A B} (f : A -> B) (k : B -> bool) l, find k (map f l) = option_map f (find (fun x => k (f x)) l).
+Proof. induction l as [|x l IH]; [reflexivity|]. cbn [map find]. destruct (k (f x)); [reflexivity|exact IH]. Qed.
+
+(* a relevant day that is not the last row: the daily class' entry is clean_day, the billing class' entry is the
+   bucket value *)
+Section Lookup.
+  Variable rs : list reading.
+  Variable bs : list Z.
+  Hypothesis Hinc : incr bs.
+  Let bk := filter (relevant rs) (pairs bs).
+
+  Lemma bk_sorted : StronglySorted Z.lt (map fst bk).
+  Proof. apply sorted_filter. apply pairs_fst_sorted'. exact Hinc. Qed.
+
+  Lemma lookup_downsample : forall p, In p (removelast bk) ->
+    lookup_day (downsample_and_clean rs bs) (fst p) = clean_day (fst p) (snd p) (intervals rs) false.
+  Proof.
+    intros p Hp. unfold downsample_and_clean, as_freq_cum. fold bk.
+    set (ivs := intervals rs).
+    assert (exists last_row, rows_of ivs bk = removelast (rows_of ivs bk) ++ [last_row]) as (lr & Elr).
+    { destruct bk as [|q bk'] eqn:Ebk; [destruct Hp|].
+      exists (last (rows_of ivs (q :: bk')) (mkD 0 0 None 0)). apply app_removelast_last.
+      destruct q. cbn [rows_of]. discriminate. }
+    unfold lookup_day. rewrite Elr, find_ext_key.
+    assert (map (fun r => (d_lo r, d_hi r, d_val r, d_cov r)) (removelast (rows_of ivs bk)) =
+            map (fun p => (fst p, snd p, bucket_value (fst p) (snd p) ivs, coverage (fst p) (snd p) ivs false)) (removelast bk))
+      as Hrows by apply rows_of_removelast.
+    (* the row of p *)
+    assert (In (fst p, snd p, bucket_value (fst p) (snd p) ivs, coverage (fst p) (snd p) ivs false)
+               (map (fun r => (d_lo r, d_hi r, d_val r, d_cov r)) (removelast (rows_of ivs bk)))) as Hin
+      by (rewrite Hrows; apply (in_map (fun p => (fst p, snd p, bucket_value (fst p) (snd p) ivs, coverage (fst p) (snd p) ivs false))); exact Hp).
+    apply in_map_iff in Hin. destruct Hin as (r & Er & Hr). injection Er as E1 E2 E3 E4.
+    assert (StronglySorted Z.lt (map d_lo (removelast (rows_of ivs bk) ++ [lr]))) as Hsrt.
+    { rewrite <- Elr.
+      assert (map d_lo (rows_of ivs bk) = map fst bk) as ->.
+      { pose proof (rows_of_spec ivs bk) as Hs. apply (f_equal (map (fun t => fst (fst t)))) in Hs.
+        rewrite !map_map in Hs. cbn [fst] in Hs. exact Hs. }
+      exact bk_sorted. }
+    assert (find (fun x => d_lo x =? fst p) (removelast (rows_of ivs bk) ++ [lr]) = Some r) as Hf.
+    { rewrite <- E1. apply (find_sorted d_lo); [exact Hsrt|]. apply in_or_app. left. exact Hr. }
+    cbn [fst]. rewrite Hf. cbn [option_map snd]. unfold clean_day. rewrite E3, E4. reflexivity.
+  Qed.
+
+  Lemma lookup_values : forall p, In p (removelast bk) ->
+    lookup_day (map (fun r => (d_lo r, d_val r)) (removelast_rows (as_freq_cum rs bs))) (fst p) =
+    bucket_value (fst p) (snd p) (intervals rs).
+  Proof.
+    intros p Hp. rewrite removelast_rows_spec. unfold as_freq_cum. fold bk. set (ivs := intervals rs).
+    assert (map (fun r => (d_lo r, d_hi r, d_val r, d_cov r)) (removelast (rows_of ivs bk)) =
+            map (fun p => (fst p, snd p, bucket_value (fst p) (snd p) ivs, coverage (fst p) (snd p) ivs false)) (removelast bk))
+      as Hrows by apply rows_of_removelast.
+    assert (In (fst p, snd p, bucket_value (fst p) (snd p) ivs, coverage (fst p) (snd p) ivs false)
+               (map (fun r => (d_lo r, d_hi r, d_val r, d_cov r)) (removelast (rows_of ivs bk)))) as Hin
+      by (rewrite Hrows; apply (in_map (fun p => (fst p, snd p, bucket_value (fst p) (snd p) ivs, coverage (fst p) (snd p) ivs false))); exact Hp).
+    apply in_map_iff in Hin. destruct Hin as (r & Er & Hr). injection Er as E1 E2 E3 E4.
+    assert (StronglySorted Z.lt (map d_lo (removelast (rows_of ivs bk)))) as Hsrt.
+    { assert (map d_lo (removelast (rows_of ivs bk)) = map fst (removelast bk)) as ->.
+      { apply (f_equal (map (fun t => fst (fst (fst t))))) in Hrows. rewrite !map_map in Hrows. cbn [fst] in Hrows. exact Hrows. }
+      rewrite map_removelast. apply sorted_removelast. exact bk_sorted. }
+    unfold lookup_day. rewrite find_ext_key. cbn [fst].
+    assert (find (fun x => d_lo x =? fst p) (removelast (rows_of ivs bk)) = Some r) as Hf
+      by (rewrite <- E1; apply (find_sorted d_lo); assumption).
+    rewrite Hf. cbn [option_map snd]. exact E3.
+  Qed.
+
+  (* a relevant bucket that lies before another relevant one is not the last row *)
+  Lemma not_last_row : forall p q, In p (pairs bs) -> relevant rs p = true ->
+    In q (pairs bs) -> relevant rs q = true -> fst p < fst q -> In p (removelast bk).
+  Proof.
+    intros p q Hp Hrp Hq Hrq Hlt.
+    assert (In p bk) as Hpb by (apply filter_In; tauto).
+    assert (In q bk) as Hqb by (apply filter_In; tauto).
+    apply (in_removelast bk p (0, 0)); [exact Hpb|].
+    intro E. pose proof (sorted_last_max fst bk (0, 0) q bk_sorted Hqb) as Hm. rewrite <- E in Hm. lia.
+  Qed.
+End Lookup.
+
+(* ------------------------------------------------------------------------------------------------ *)
+(* 10. the data classes                                                                              *)
+(* ------------------------------------------------------------------------------------------------ *)
+
+Lemma pairs_cons_incl : forall a l p, In p (pairs l) -> In p (pairs (a :: l)).
+Proof. intros a [|b l] p H; [destruct H|]. change (pairs (a :: b :: l)) with ((a, b) :: pairs (b :: l)). right. exact H. Qed.
+
+Lemma pairs_app_incl : forall mid c post p, In p (pairs (c :: mid)) -> In p (pairs ((c :: mid) ++ post)).
+Proof.
+  induction mid as [|d mid IH]; intros c post p H; [destruct H|].
+  change (pairs (c :: d :: mid)) with ((c, d) :: pairs (d :: mid)) in H.
+  change (pairs ((c :: d :: mid) ++ post)) with ((c, d) :: pairs ((d :: mid) ++ post)).
+  destruct H as [<-|H]; [left; reflexivity|right; apply IH; exact H].
+Qed.
+
+Lemma pairs_sub : forall pre c mid post p, In p (pairs (c :: mid)) -> In p (pairs (pre ++ (c :: mid) ++ post)).
+Proof.
+  induction pre as [|a pre IH]; intros c mid post p H; [apply pairs_app_incl; exact H|].
+  change ((a :: pre) ++ (c :: mid) ++ post) with (a :: (pre ++ (c :: mid) ++ post)).
+  apply pairs_cons_incl. apply IH. exact H.
+Qed.
+
+(* the day buckets of a boundary list do not overlap *)
+Lemma pairs_disjoint : forall l c p q, incr (c :: l) -> In p (pairs (c :: l)) -> In q (pairs (c :: l)) ->
+  p = q \/ snd p <= fst q \/ snd q <= fst p.
+Proof.
+  induction l as [|d l IH]; intros c p q H Hp Hq; [destruct Hp|].
+  change (pairs (c :: d :: l)) with ((c, d) :: pairs (d :: l)) in Hp, Hq.
+  destruct H as [Hcd H].
+  destruct Hp as [<-|Hp]; destruct Hq as [<-|Hq]; [left; reflexivity| | |apply (IH d); assumption]; cbn [fst snd].
+  - pose proof (pairs_in_bounds l d q H Hq). right. left. lia.
+  - pose proof (pairs_in_bounds l d p H Hp). right. right. lia.
+Qed.
+
+Lemma pairs_disjoint' : forall bs p q, incr bs -> In p (pairs bs) -> In q (pairs bs) ->
+  p = q \/ snd p <= fst q \/ snd q <= fst p.
+Proof. intros [|c l] p q H Hp Hq; [destruct Hp|eapply pairs_disjoint; eassumption]. Qed.
+
+Lemma pairs_pos : forall bs p, incr bs -> In p (pairs bs) -> fst p < snd p.
+Proof. intros [|c l] p H Hp; [destruct Hp|]. pose proof (pairs_in_bounds l c p H Hp). lia. Qed.
+
+(* ---- the daily class on sub-daily data ---- *)
+
+Lemma daily_class_hourly_l : forall elec inf rows bs rs,
+  rs = dropna (zero_to_nan elec rows) -> rs <> [] ->
+  granularity inf (map stamp rs) Daily = Some Hourly ->
+  daily_class elec inf rows bs =
+  Days (map (fun b => lookup_day (downsample_and_clean rs bs) (fst b)) (pairs bs)).
+Proof.
+  intros elec inf rows bs rs E Hne Hg. unfold daily_class. rewrite <- E.
+  destruct rs as [|r rs']; [congruence|]. rewrite Hg. reflexivity.
+Qed.
+
+(* a day that is not the last one pandas creates: the class reports clean_day of the readings that are LEFT AFTER
+   dropna() -- the previous reading is spread over whatever was dropped *)
+Lemma daily_class_day_l : forall rs bs p q, incr bs ->
+  In p (pairs bs) -> relevant rs p = true -> In q (pairs bs) -> relevant rs q = true -> fst p < fst q ->
+  lookup_day (downsample_and_clean rs bs) (fst p) = clean_day (fst p) (snd p) (intervals rs) false.
+Proof.
+  intros rs bs p q Hinc Hp Hrp Hq Hrq Hlt. apply lookup_downsample; [exact Hinc|].
+  eapply not_last_row; eassumption.
+Qed.
+
+(* ---- the billing class ---- *)
+
+Definition billing_closing (bs : list Z) (rows : list reading) : Z :=
+  let fb := floor_boundary bs (last_stamp rows) in fb + (last_stamp rows - fb) mod 60 + 1440.
+
+Definition billing_days (cl : list reading) (bs : list Z) (b : Z * Z) : option Q :=
+  lookup_day (map (fun r => (d_lo r, d_val r)) (removelast_rows (as_freq_cum cl bs))) (fst b).
+
+Lemma billing_class_spec_l : forall cal offs elec inf rows bs rs g cl,
+  rs = dropna (zero_to_nan elec rows) -> rs <> [] ->
+  granularity inf (map stamp rs) BillingBimonthly = Some g -> is_billing g = true ->
+  cl = clean_billing cal offs g (rs ++ [(billing_closing bs rows, None)]) -> cl <> [] ->
+  billing_class cal offs elec inf rows bs = Days (map (billing_days cl bs) (pairs bs)).
+Proof.
+  intros cal offs elec inf rows bs rs g cl E Hne Hg Hb Ecl Hcl. unfold billing_class. rewrite <- E.
+  destruct rs as [|r rs']; [congruence|]. rewrite Hg, Hb. cbn [negb].
+  unfold billing_closing in Ecl. cbv zeta in Ecl. cbv zeta. rewrite <- Ecl.
+  destruct cl as [|x cl']; [congruence|]. reflexivity.
+Qed.
+
+(* billing_period_conserved, end to end: a period that still carries usage after cleaning (a valid one, see
+   offcycle_dropped_l) and whose two ends are local midnights: the class' days inside it are all present and add up
+   to the billed amount *)
+Lemma billing_class_period_l : forall cl bs iv v pre c mid post,
+  sorted_rs cl -> In iv (intervals cl) -> ival iv = Some v ->
+  bs = pre ++ (c :: mid) ++ post -> incr bs -> c = ilo iv -> last mid c = ihi iv ->
+  (exists q, In q (pairs bs) /\ fst q <= last_stamp cl < snd q) ->
+  (forall p, In p (pairs (c :: mid)) ->
+     In p (pairs bs) /\ billing_days cl bs p = Some (bucket_sum (fst p) (snd p) (intervals cl))) /\
+  (sumQ (map (fun p => oq0 (billing_days cl bs p)) (pairs (c :: mid))) == v)%Q.
+Proof.
+  intros cl bs iv v pre c mid post Hs Hin Hv Ebs Hinc Hc Hl (q & Hq & Hq1 & Hq2).
+  assert (incr (c :: mid)) as Hincm.
+  { subst bs. clear - Hinc. induction pre as [|a pre IH]; cbn [app] in Hinc.
+    - revert c Hinc. induction mid as [|d mid IHm]; intros c Hinc; [exact I|].
+      cbn [app] in Hinc. destruct Hinc as [Hcd Hinc]. split; [exact Hcd|]. apply IHm. exact Hinc.
+    - apply IH. eapply incr_tail. exact Hinc. }
+  pose proof (intervals_bounds cl iv Hs Hin) as (Hb1 & Hb2 & Hb3).
+  destruct (period_conserved_l cl iv v c mid Hs Hin Hv Hincm Hc Hl) as [Hsum Hday].
+  assert (forall p, In p (pairs (c :: mid)) ->
+            In p (pairs bs) /\ billing_days cl bs p = Some (bucket_sum (fst p) (snd p) (intervals cl))) as Hall.
+  { intros p Hp. pose proof (pairs_in_bounds mid c p Hincm Hp) as (Hp1 & Hp2 & Hp3).
+    assert (In p (pairs bs)) as Hpb by (rewrite Ebs; apply pairs_sub; exact Hp).
+    split; [exact Hpb|].
+    destruct (Hday p Hp) as [_ Hval]. rewrite <- Hval.
+    unfold billing_days. apply lookup_values; [exact Hinc|].
+    apply (not_last_row cl bs Hinc p q); try assumption.
+    - unfold relevant. apply andb_true_iff. split; [apply Z.ltb_lt|apply Z.leb_le]; lia.
+    - unfold relevant. apply andb_true_iff. split; [apply Z.ltb_lt|apply Z.leb_le]; lia.
+    - destruct (pairs_disjoint' bs p q Hinc Hpb Hq) as [E|[E|E]]; [subst q; lia| |lia].
+      pose proof (pairs_pos bs p Hinc Hpb). lia. }
+  split; [exact Hall|].
+  rewrite <- Hsum. apply sumQ_ext. intros p Hp. destruct (Hall p Hp) as [_ E]. rewrite E. reflexivity.
+Qed.
+
+(* offcycle_dropped, end to end: the class' days inside an interval of the cleaned series that carries no usage (an
+   off-cycle period, an unbilled one, the closing row) are all missing *)
+Lemma billing_class_blank_l : forall cl bs iv p,
+  sorted_rs cl -> In iv (intervals cl) -> ival iv = None -> incr bs -> In p (pairs bs) ->
+  ilo iv <= fst p -> snd p <= ihi iv ->
+  (exists q, In q (pairs bs) /\ fst q <= last_stamp cl < snd q /\ p <> q) ->
+  billing_days cl bs p = None.
+Proof.
+  intros cl bs iv p Hs Hin Hv Hinc Hp H1 H2 (q & Hq & [Hq1 Hq2] & Hne).
+  pose proof (intervals_bounds cl iv Hs Hin) as (Hb1 & Hb2 & Hb3).
+  pose proof (pairs_pos bs p Hinc Hp) as Hpp.
+  rewrite <- (period_missing_l cl iv (fst p) (snd p) Hs Hin Hv); try lia.
+  unfold billing_days. apply lookup_values; [exact Hinc|].
+  apply (not_last_row cl bs Hinc p q); try assumption.
+  - unfold relevant. apply andb_true_iff. split; [apply Z.ltb_lt|apply Z.leb_le]; lia.
+  - unfold relevant. apply andb_true_iff. split; [apply Z.ltb_lt|apply Z.leb_le]; lia.
+  - destruct (pairs_disjoint' bs p q Hinc Hp Hq) as [E|[E|E]]; [congruence|lia|lia].
+Qed.
+
+(* ------------------------------------------------------------------------------------------------ *)
+(* 11. minute_grid_eq: the code's literal 1-minute materialisation equals the interval formula       *)
+(* ------------------------------------------------------------------------------------------------ *)
+
+Definition rate (iv : interval) : option Q :=
+  option_map (fun v => (v * inject_Z 1 / inject_Z (ihi iv - ilo iv))%Q) (ival iv).
+Definition holds (iv : interval) (m : Z) : bool := (ilo iv <=? m) && (m <? ihi iv).
+Definition rate_at (iv : interval) (m : Z) : option Q := if holds iv m then rate iv else None.
+Definition b2z (b : bool) : Z := if b then 1 else 0.
+
+(* at every minute the forward-filled atomic series carries the rate of the one interval that holds the minute *)
+Lemma atom_sum_cons : forall rest r m, sorted_rs (r :: rest) ->
+  (oq0 (atom (r :: rest) m) == sumQ (map (fun iv => oq0 (rate_at iv m)) (intervals (r :: rest))))%Q /\
+  b2z (is_some (atom (r :: rest) m)) = zsum (map (fun iv => b2z (is_some (rate_at iv m))) (intervals (r :: rest))).
+Proof.
+  induction rest as [|r' rest IH]; intros r m Hs; [split; reflexivity|].
+  change (intervals (r :: r' :: rest)) with (mkI (stamp r) (stamp r') (rval r) :: intervals (r' :: rest)).
+  pose proof (sorted_rs_tail _ _ Hs) as Hs'.
+  assert (stamp r < stamp r') as Hlt by (unfold sorted_rs in Hs; cbn in Hs; tauto).
+  cbn [map sumQ zsum fold_right]. fold (zsum (map (fun iv => b2z (is_some (rate_at iv m))) (intervals (r' :: rest)))).
+  change (atom (r :: r' :: rest) m) with
+    (if stamp r' <=? m then atom (r' :: rest) m
+     else if stamp r <=? m then option_map (fun v => (v * inject_Z 1 / inject_Z (stamp r' - stamp r))%Q) (rval r) else None).
+  unfold rate_at at 1 3. unfold holds. cbn [ilo ihi].
+  destruct (stamp r' <=? m) eqn:E1.
+  - apply Z.leb_le in E1. assert ((stamp r <=? m) && (m <? stamp r') = false) as ->
+      by (apply andb_false_iff; right; apply Z.ltb_ge; lia).
+    destruct (IH r' m Hs') as [IH1 IH2]. cbn [oq0 is_some b2z]. split; [rewrite IH1; ring|rewrite IH2; lia].
+  - apply Z.leb_gt in E1.
+    assert (forall iv, In iv (intervals (r' :: rest)) -> rate_at iv m = None) as Hnone.
+    { intros iv Hiv. pose proof (intervals_bounds _ iv Hs' Hiv) as (H1 & _). cbn [first_stamp] in H1.
+      unfold rate_at, holds. assert (ilo iv <=? m = false) as -> by (apply Z.leb_gt; lia). reflexivity. }
+    assert (sumQ (map (fun iv => oq0 (rate_at iv m)) (intervals (r' :: rest))) == 0)%Q as Hz1
+      by (apply sumQ_zero; intros iv Hiv; rewrite (Hnone iv Hiv); reflexivity).
+    assert (zsum (map (fun iv => b2z (is_some (rate_at iv m))) (intervals (r' :: rest))) = 0) as Hz2
+      by (apply zsum_zero; intros iv Hiv; rewrite (Hnone iv Hiv); reflexivity).
+    rewrite Hz1, Hz2. assert (m <? stamp r' = true) as -> by (apply Z.ltb_lt; lia). rewrite andb_true_r.
+    destruct (stamp r <=? m); unfold rate; cbn [ival ilo ihi]; split; try ring; lia.
+Qed.
+
+Lemma atom_sum : forall rs m, sorted_rs rs ->
+  (oq0 (atom rs m) == sumQ (map (fun iv => oq0 (rate_at iv m)) (intervals rs)))%Q /\
+  b2z (is_some (atom rs m)) = zsum (map (fun iv => b2z (is_some (rate_at iv m))) (intervals rs)).
+Proof. intros [|r rest] m Hs; [split; reflexivity|apply atom_sum_cons; exact Hs]. Qed.
+
+Lemma grid_sum_ext : forall (f g : Z -> Q) lo n, (forall m, (f m == g m)%Q) -> (grid_sum f lo n == grid_sum g lo n)%Q.
+Proof. induction n as [|k IH]; intros H; cbn [grid_sum]; [reflexivity|]. rewrite !Qred_correct, IH, H by exact H. reflexivity. Qed.
+
+Lemma grid_sum_sumQ : forall {A} (F : A -> Z -> Q) l lo n,
+  (grid_sum (fun m => sumQ (map (fun a => F a m) l)) lo n == sumQ (map (fun a => grid_sum (F a) lo n) l))%Q.
+Proof.
+  induction n as [|k IH]; cbn [grid_sum].
+  - symmetry. apply sumQ_zero. reflexivity.
+  - rewrite Qred_correct, IH.
+    rewrite (sumQ_ext (fun a => grid_sum (F a) lo (S k)) (fun a => (grid_sum (F a) lo k + F a (lo + Z.of_nat k)%Z)%Q))
+      by (intros a _; cbn [grid_sum]; apply Qred_correct).
+    rewrite <- sumQ_plus. reflexivity.
+Qed.
+
+Lemma grid_count_ext : forall (f g : Z -> bool) lo n, (forall m, f m = g m) -> grid_count f lo n = grid_count g lo n.
+Proof. induction n as [|k IH]; intros H; cbn [grid_count]; [reflexivity|]. rewrite IH, H by exact H. reflexivity. Qed.
+
+Fixpoint grid_zsum (f : Z -> Z) (lo : Z) (n : nat) : Z :=
+  match n with O => 0 | S k => grid_zsum f lo k + f (lo + Z.of_nat k) end.
+
+Lemma grid_count_zsum : forall f lo n, grid_count f lo n = grid_zsum (fun m => b2z (f m)) lo n.
+Proof. induction n as [|k IH]; cbn [grid_count grid_zsum]; [reflexivity|]. rewrite IH. reflexivity. Qed.
+
+Lemma grid_zsum_ext : forall (f g : Z -> Z) lo n, (forall m, f m = g m) -> grid_zsum f lo n = grid_zsum g lo n.
+Proof. induction n as [|k IH]; intros H; cbn [grid_zsum]; [reflexivity|]. rewrite IH, H by exact H. reflexivity. Qed.
+
+Lemma grid_zsum_zsum : forall {A} (F : A -> Z -> Z) l lo n,
+  grid_zsum (fun m => zsum (map (fun a => F a m) l)) lo n = zsum (map (fun a => grid_zsum (F a) lo n) l).
+Proof.
+  induction n as [|k IH]; cbn [grid_zsum].
+  - symmetry. apply zsum_zero. reflexivity.
+  - rewrite IH. clear IH. induction l as [|a l IHl]; cbn [map zsum fold_right]; [reflexivity|].
+    fold (zsum (map (fun a0 => grid_zsum (F a0) lo k) l)). fold (zsum (map (fun a0 => F a0 (lo + Z.of_nat k)) l)).
+    fold (zsum (map (fun a0 => grid_zsum (F a0) lo k + F a0 (lo + Z.of_nat k)) l)). lia.
+Qed.
+
+(* minutes of [lo, lo+n) held by [a,b) = the overlap *)
+Lemma overlap_step : forall a b lo k, 0 <= k ->
+  overlap a b lo (lo + (k + 1)) = overlap a b lo (lo + k) + b2z ((a <=? lo + k) && (lo + k <? b)).
+Proof.
+  intros a b lo k Hk. unfold overlap, b2z.
+  destruct (a <=? lo + k) eqn:E1; destruct (lo + k <? b) eqn:E2; cbn [andb];
+    try apply Z.leb_le in E1; try apply Z.leb_gt in E1; try apply Z.ltb_lt in E2; try apply Z.ltb_ge in E2; lia.
+Qed.
+
+Lemma grid_iv_count : forall iv lo n,
+  grid_zsum (fun m => b2z (is_some (rate_at iv m))) lo n = covered lo (lo + Z.of_nat n) iv.
+Proof.
+  intros iv lo. induction n as [|k IH]; cbn [grid_zsum].
+  - unfold covered. destruct (ival iv); [|reflexivity]. unfold overlap. cbn [Z.of_nat]. lia.
+  - rewrite IH. rewrite Nat2Z.inj_succ. unfold Z.succ. unfold covered, rate_at, holds, rate.
+    destruct (ival iv) as [v|].
+    + rewrite overlap_step by lia. cbn [option_map].
+      destruct ((ilo iv <=? lo + Z.of_nat k) && (lo + Z.of_nat k <? ihi iv)); reflexivity.
+    + cbn [option_map]. destruct ((ilo iv <=? lo + Z.of_nat k) && (lo + Z.of_nat k <? ihi iv)); reflexivity.
+Qed.
+
+Lemma grid_iv_sum : forall iv lo n, ilo iv < ihi iv ->
+  (grid_sum (fun m => oq0 (rate_at iv m)) lo n == contrib lo (lo + Z.of_nat n) iv)%Q.
+Proof.
+  intros iv lo n Hlen. rewrite contrib_eq. unfold ovl.
+  assert (~ inject_Z (ihi iv - ilo iv) == 0)%Q as Hnz by (apply inject_Z_nonzero; lia).
+  induction n as [|k IH]; cbn [grid_sum].
+  - destruct (ival iv) as [v|]; [|reflexivity].
+    assert (overlap (ilo iv) (ihi iv) lo (lo + Z.of_nat 0) = 0) as -> by (unfold overlap; cbn [Z.of_nat]; lia).
+    unfold Qdiv. change (inject_Z 0) with 0%Q. ring.
+  - rewrite Qred_correct, IH. rewrite Nat2Z.inj_succ. unfold Z.succ. unfold rate_at, holds, rate, ilen.
+    destruct (ival iv) as [v|]; cbn [option_map oq0].
+    + rewrite overlap_step by lia. rewrite inject_Z_plus.
+      destruct ((ilo iv <=? lo + Z.of_nat k) && (lo + Z.of_nat k <? ihi iv)); cbn [b2z oq0].
+      * field. exact Hnz.
+      * change (inject_Z 0) with 0%Q. field. exact Hnz.
+    + destruct ((ilo iv <=? lo + Z.of_nat k) && (lo + Z.of_nat k <? ihi iv)); cbn [oq0]; ring.
+Qed.
+
+Lemma minute_grid_eq_l : forall rs lo hi, sorted_rs rs -> lo <= hi ->
+  (grid_bucket_sum rs lo hi == bucket_sum lo hi (intervals rs))%Q /\
+  grid_bucket_count rs lo hi = bucket_count lo hi (intervals rs).
+Proof.
+  intros rs lo hi Hs Hle.
+  assert (lo + Z.of_nat (Z.to_nat (hi - lo)) = hi) as Ehi by (rewrite Z2Nat.id; lia).
+  split.
+  - unfold grid_bucket_sum.
+    rewrite (grid_sum_ext _ (fun m => sumQ (map (fun iv => oq0 (rate_at iv m)) (intervals rs)))) by (intros m; apply atom_sum; exact Hs).
+    rewrite (grid_sum_sumQ (fun iv m => oq0 (rate_at iv m))).
+    rewrite bucket_sum_sumQ. apply sumQ_ext. intros iv Hiv.
+    pose proof (intervals_bounds rs iv Hs Hiv) as (_ & Hlen & _).
+    rewrite grid_iv_sum by exact Hlen. rewrite Ehi. reflexivity.
+  - unfold grid_bucket_count, bucket_count. rewrite grid_count_zsum.
+    rewrite (grid_zsum_ext _ (fun m => zsum (map (fun iv => b2z (is_some (rate_at iv m))) (intervals rs)))) by (intros m; apply atom_sum; exact Hs).
+    rewrite (grid_zsum_zsum (fun iv m => b2z (is_some (rate_at iv m)))).
+    f_equal. apply map_ext. intros iv. rewrite grid_iv_count, Ehi. reflexivity.
+Qed.
+
+(* ------------------------------------------------------------------------------------------------ *)
+(* 12. the statement for the daily class, under the guard "no reading is missing"                    *)
+(* ------------------------------------------------------------------------------------------------ *)
+
+Definition readings_in (lo hi : Z) (ivs : list interval) : Q :=
+  sumQ (map (fun iv => oq0 (ival iv)) (filter (inside lo hi) ivs)).
+
+Lemma daily_class_statement_partial_l : forall elec inf rows bs step t0 p q,
+  dropna (zero_to_nan elec rows) = rows -> rows <> [] ->
+  granularity inf (map stamp rows) Daily = Some Hourly ->
+  incr bs -> In p (pairs bs) -> relevant rows p = true ->
+  In q (pairs bs) -> relevant rows q = true -> fst p < fst q ->
+  0 < step -> (forall iv, In iv (intervals rows) -> ihi iv = ilo iv + step /\ (step | ilo iv - t0)) ->
+  (step | fst p - t0) -> (step | snd p - t0) ->
+  let entry := fun b : Z * Z => lookup_day (downsample_and_clean rows bs) (fst b) in
+  let ivs := intervals rows in
+  let c := coverage (fst p) (snd p) ivs false in
+  daily_class elec inf rows bs = Days (map entry (pairs bs)) /\
+  ((c <= 1 # 2)%Q -> entry p = None) /\
+  ((1 # 2 < c)%Q -> oq_eq (entry p) (Some (readings_in (fst p) (snd p) ivs / c)%Q)) /\
+  (bucket_count (fst p) (snd p) ivs = snd p - fst p -> oq_eq (entry p) (Some (readings_in (fst p) (snd p) ivs))).
+Proof.
+  intros elec inf rows bs step t0 p q Hd Hne Hg Hinc Hp Hrp Hq Hrq Hlt Hstep Hreg Hlo Hhi entry ivs c.
+  pose proof (pairs_pos bs p Hinc Hp) as Hpp.
+  assert (no_straddle (fst p) (snd p) ivs) as Hns by (eapply regular_no_straddle; eassumption).
+  assert (entry p = clean_day (fst p) (snd p) ivs false) as He
+    by (unfold entry; eapply daily_class_day_l; eassumption).
+  split; [apply daily_class_hourly_l; [symmetry; exact Hd|exact Hne|exact Hg]|].
+  rewrite He. split; [apply sparse_day_l|]. split.
+  - intros Hc. pose proof (partial_day_l (fst p) (snd p) ivs Hpp Hc) as H.
+    destruct (clean_day (fst p) (snd p) ivs false) as [x|]; cbn [oq_eq] in *; [|exact H].
+    rewrite H. unfold readings_in. rewrite (bucket_sum_inside (fst p) (snd p) ivs) by (try lia; exact Hns). reflexivity.
+  - intros Hc. apply full_day_l; assumption.
+Qed.
